@@ -303,7 +303,17 @@ class Ctx:
         if k == "join":
             other = self.operand(rel, op[1])
             pred = None if op[2] is None else A.to_lib(op[2])
-            if len(op) > 4:
+            if len(op) > 5 and op[5] == "direct" and not flags:
+                # the third public route: BinaryOperation.apply(lhs, rhs) on a Join object the caller built,
+                # with or without pre-resolved common columns (no PartialJoin, no Relation.join in between)
+                from lsst.daf.relation import Join, Predicate
+
+                kw = {}
+                if op[4] is not None:
+                    kw = {"min_columns": A.tags(op[4]), "max_columns": A.tags(op[4])}
+                j = Join(pred if pred is not None else Predicate.literal(True), **kw)
+                return j.apply(other, rel) if op[3] else j.apply(rel, other)
+            if len(op) > 4 and op[4] is not None:
                 # explicit, pre-resolved common columns (public Join(min_columns=, max_columns=) API)
                 from lsst.daf.relation import Join, Predicate
 
